@@ -35,8 +35,9 @@ def interpret(repo, gamma_zero=False):
         # the only data-dependent branch: refuse when some discriminant is negative.
         txt = ast.unparse(test)
         cmps = [n for n in ast.walk(test) if isinstance(n, ast.Compare)]
+        in_any = any(isinstance(c_, ast.Call) and norm(c_.func).split(".")[-1] == "any" for c_ in ast.walk(test))
         if len(cmps) == 1 and isinstance(cmps[0].ops[0], (ast.Lt, ast.LtE)) and \
-                isinstance(cmps[0].comparators[0], ast.Constant) and cmps[0].comparators[0].value == 0:
+                ((isinstance(cmps[0].comparators[0], ast.Constant) and cmps[0].comparators[0].value == 0) or in_any):
             decided.append(txt)
             # the accepted path: no negative discriminant - whichever way the test is spelled (`if any(d < 0)` / `if not any(d < 0)`)
             nots = 0
@@ -159,8 +160,17 @@ def check_refusals(ctx, f, decided):
     ok = len(val_rets) == 1 and len(tests) >= 1
     L = loc(f, fn)
     if not ok:
+        # a refusal test that is not a sign test of the quantity under the square root (e.g. `2c+1 < 2|z||w|`, the same condition in
+        # exact arithmetic): the decision and the root then use two floating-point expressions for one sign
+        other = [n for n in own_nodes(fn) if isinstance(n, ast.If) and any(isinstance(c, ast.Compare) for c in ast.walk(n.test))
+                 and any(isinstance(c, ast.Call) and norm(c.func).split(".")[-1] == "any" for c in ast.walk(n.test))]
+        roots = sorted({norm(c.args[0]) for c in own_nodes(fn) if isinstance(c, ast.Call) and isinstance(c.func, ast.Attribute) and c.func.attr == "sqrt"
+                        and c.args and isinstance(c.args[0], ast.Name)})
+        msg = (f"the refusal test `{norm(other[0].test)}` is not a sign test of {roots or 'the discriminant'}, the quantity whose square root is "
+               f"taken: at a (numerical) double root the two floating-point expressions disagree and the step is answered with nan") if other and len(val_rets) == 1 \
+            else f"found {len(val_rets)} value returns and {len(tests)} sign tests"
         ctx.ob("R02.5", "one value return guarded by a discriminant sign test", False, where=f.fq,
-               construct="exits", loc=L, message=f"found {len(val_rets)} value returns and {len(tests)} sign tests",
+               construct="exits", loc=loc(f, other[0]) if other else L, message=msg,
                consequence="an answer can be returned without testing the discriminant")
         return
     vr = val_rets[0]
